@@ -162,6 +162,38 @@ Proof.
   rewrite fmin_R in L. rewrite fmax_R in U. split; apply fle_R; assumption.
 Qed.
 
+Lemma incr_R n (X : nat -> R) : (forall i, (S i < n)%nat -> (X i < X (S i))%R) -> incr n X.
+Proof. intros H i Hi. apply flt_R. now apply H. Qed.
+
+Lemma nsc_R k (d : R) : @nsc R ROps k d = (INR k * d)%R.
+Proof.
+  induction k as [|k IH].
+  - cbn. lra.
+  - rewrite S_INR. cbn [nsc]. rewrite IH. cbn. lra.
+Qed.
+
+Theorem C17_dot_interp_eq_ref_R (n : nat) (X Y : nat -> R) (x : R) :
+  (2 <= n)%nat -> (forall i, (S i < n)%nat -> (X i < X (S i))%R) ->
+  dot_interp n X Y x = interp_ref n X Y x.
+Proof. intros Hn H. exact (dot_interp_eq_ref n X Hn (incr_R n X H) Y x). Qed.
+
+(** the documented window over the reals, end points included *)
+Theorem C17_safe_extrap_window_R (n k : nat) (X Y : nat -> R) (x : R) :
+  (2 <= n)%nat -> (forall i, (S i < n)%nat -> (X i < X (S i))%R) ->
+  let lo := (X 0%nat - INR k * (X 1%nat - X 0%nat))%R in
+  let hi := (X (n - 1)%nat + INR k * (X (n - 1)%nat - X (n - 2)%nat))%R in
+  ((lo <= x <= hi)%R -> safe_extrap k n X Y x = Some (lin_extrap n X Y x)) /\
+  ((x < lo \/ hi < x)%R -> safe_extrap k n X Y x = None).
+Proof.
+  intros Hn H lo hi.
+  destruct (safe_extrap_window n X Hn (incr_R n X H) k Y x) as (W0 & W1 & _).
+  assert (El : @win_lo R ROps k X = lo) by (unfold win_lo, lo; rewrite nsc_R; reflexivity).
+  assert (Eh : @win_hi R ROps k n X = hi) by (unfold win_hi, hi; rewrite nsc_R; reflexivity).
+  rewrite El, Eh in *. split.
+  - intros [A B]. apply W1; apply fle_R; assumption.
+  - intros [A|A]; apply W0; [left|right]; apply flt_R; assumption.
+Qed.
+
 (** Non-vacuity: the hypotheses are met by concrete uneven instances over Qc
     (4 pressure levels, 3 sigma levels, a monotone geopotential column). *)
 Example C17_hyps_satisfiable :
@@ -206,4 +238,6 @@ Print Assumptions C17_bilinear_constants.
 Print Assumptions C17_bilinear_identity_same_grid.
 Print Assumptions C17_nearest_constants.
 Print Assumptions C17_nearest_identity_same_grid.
+Print Assumptions C17_dot_interp_eq_ref_R.
+Print Assumptions C17_safe_extrap_window_R.
 Print Assumptions C17_hyps_satisfiable.
